@@ -22,7 +22,7 @@ def produce(name, argsets, san=False, timeout=900):
         path = os.path.join(vcheck.scratch(), "%s-%d-%d.ndjson" % (name, os.getpid(), i))
         with open(path, "wb") as f:
             env = dict(os.environ, ASAN_OPTIONS="detect_leaks=0:exitcode=77", UBSAN_OPTIONS="halt_on_error=1:exitcode=78:print_stacktrace=1")
-            p = subprocess.run([exe] + [str(a) for a in args], stdout=f, stderr=subprocess.PIPE, timeout=timeout, env=env)
+            p = subprocess.run([exe] + [str(a) for a in args], stdout=f, stderr=subprocess.PIPE, timeout=int(timeout * vcheck.TSCALE), env=env)
         n = 0
         with open(path, "rb") as f:
             for _ in f:
